@@ -284,7 +284,8 @@ Definition start_call (s : state) (t : tid) (c : call) (rest : list call) : opti
   | CDisableBuf => Some (finish (set_buffering s0 false) t ResOk)
   | CEnableBuf => Some (finish (set_buffering s0 true) t ResOk)
   | CFail => Some (finish (set_failing s0) t ResOk)
-  | CFeed ev => Some (finish (feed_ev s0 ev) t ResOk)
+  | CFeed ev => if Nat.eqb t rtid then Some (finish s0 t ResOk)      (* the receive task does not feed itself *)
+               else Some (finish (feed_ev s0 ev) t ResOk)
   end.
 
 Definition step (s : state) (t : tid) : option state :=
